@@ -166,11 +166,11 @@ def families(tier):
                 "x3 == 0 or x3 == 2 or x3 == 3 or x3 == 7 or x3 == %d" % NOP, "a1 <= 2"]
         parts = parts_product(x1=range(7), x2=range(NOP))
     else:
-        pre += ["0 <= x4 <= %d" % NOP, "0 <= a4 < 4"]
-        parts = parts_product(x1=range(7), x2=range(NOP), x3=range(NOP + 1))
+        pre += ["x4 == %d" % NOP, "a4 == 0", "size <= 2 or size >= 6", "t >= 4"]
+        parts = parts_product(x1=range(7), x2=range(NOP))
     return [
         Family(name="groups", fn="tpl_groups", params=P, pre=pre, parts=parts,
-               twin_pre=["x1 == 1", "x2 == 3", "x3 == 7", "x4 == %d" % NOP], twin_args=[4, 1, 0, 3, 0, 7, 0, NOP, 0, 9]),
+               twin_pre=["x1 == 1", "x2 == 3", "x3 == 7", "x4 == %d" % NOP], twin_args=[6, 1, 0, 3, 0, 7, 0, NOP, 0, 9]),
         Family(name="start", fn="tpl_start", params=["size", "n1", "n2", "n3", "c", "t"],
                pre=["size >= 0", "0 <= n1 <= 2", "0 <= n2 <= 2", "0 <= n3 <= 2", "-1 <= c <= 1", "t >= 0"],
                parts=parts_product(n1=range(3), c=(-1, 0, 1)), twin_pre=["n1 == 2", "c == -1"], twin_args=[3, 2, 1, 0, -1, 9]),
